@@ -1099,3 +1099,17 @@ Proof.
 Qed.
 Print Assumptions NN_always.
 Print Assumptions pending_flushed_within_timeout.
+
+(* a schema that could not be loaded (missing, unparsable, refused by control for another reason than
+   index corruption, structure changed) starts no goroutine and leaves the handle as it was *)
+Theorem refused_load_starts_nothing ls h d h' e : db_schema ls h d = (h', None, Some e) -> h' = h.
+Proof.
+  unfold db_schema. destruct (h_mem h) as [m0|] eqn:Hm.
+  - intros H. inversion H.
+  - destruct (negb (d_dir d)); [intros H; inversion H; reflexivity|].
+    destruct (d_schema d) as [[sf|]|]; try (intros H; inversion H; reflexivity).
+    destruct (control_mem ls (mem_of sf) d) as [[]|]; intros H; inversion H; try reflexivity;
+      match goal with X : h_mem _ = None |- _ => exfalso; revert X; unfold start_flusher; cbn [set_mem h_mem];
+        destruct (async_on (mem_of sf) && negb (m_started (mem_of sf))); cbn; discriminate end.
+Qed.
+Print Assumptions refused_load_starts_nothing.
